@@ -12,7 +12,7 @@ Clause(e) ==
         IF a # "ok" THEN a
         ELSE IF e.abs2 # e.abs THEN "repeated_abscissa_computation_differs"
         ELSE IF e.abs3 # e.abs THEN "abscissa_recomputed_after_its_increments_were_stored_differs"
-        ELSE LET s == AcceptSpeed(p, e.ts, e.speed) IN
+        ELSE LET s == IF e.coarse THEN AcceptSpeedPattern(p, e.ts, e.speed) ELSE AcceptSpeed(p, e.ts, e.speed) IN
              IF s # "ok" THEN s
              ELSE IF e.speed2 # e.speed THEN "repeated_speed_computation_differs"
              ELSE "ok"
